@@ -518,6 +518,18 @@ func (en *Engine) VerifyFunc(fc *FuncContract) (res *FuncResult) {
 		if !ok {
 			panic(unsupported("free variable that is not a captured cell"))
 		}
+		switch pt.Elem().Underlying().(type) {
+		case *types.Struct, *types.Array:
+			// a captured struct or array variable lives in the heap (as every local of such a type does):
+			// the closure sees some existing object
+			pv := fr.fresh("cap_"+fv.Name(), fv.Type())
+			fr.assumeWF(st, pv)
+			ctx.Assume(Not(Eq(pv.Term(), Nil)))
+			fr.binds = append(fr.binds, pv)
+			sc.vars[fv.Name()] = pv
+			sc.entry[fv.Name()] = pv
+			continue
+		}
 		top.ncell++
 		id := top.ncell
 		top.cellT[id] = pt.Elem()
